@@ -604,9 +604,20 @@ pub fn main() -> i32 {
     // and remember where the panic came from
     std::panic::set_hook(Box::new(|info| {
         let loc = info.location().map(|l| format!("{}:{}", l.file(), l.line())).unwrap_or_default();
+        if std::env::var("VERIF_PANIC_TRACE").is_ok() {
+            eprintln!("panic: {} at {}\n{}", info, loc, std::backtrace::Backtrace::force_capture());
+        }
         crate::engine::LAST_PANIC_LOC.with(|l| *l.borrow_mut() = loc);
     }));
     let args: Vec<String> = std::env::args().collect();
+    unsafe {
+        // plenty of descriptors: a run that fails may leave a few behind
+        let mut rl = libc::rlimit { rlim_cur: 0, rlim_max: 0 };
+        if libc::getrlimit(libc::RLIMIT_NOFILE, &mut rl) == 0 {
+            rl.rlim_cur = rl.rlim_max.min(65536);
+            libc::setrlimit(libc::RLIMIT_NOFILE, &rl);
+        }
+    }
     match args.get(1).map(|s| s.as_str()) {
         Some("check") if args.len() >= 4 => check(&args[2], &args[3]),
         Some("worker") => worker(&args[2..]),
